@@ -104,18 +104,36 @@ def generate(rng, tier):
         spec["replace_all"] = False
         spec["mid_replicate"] = rng.choice([[2, 1, 1], [1, 2, 1], [1, 1, 2], [1, 1, 1], [2, 1, 2]]) if rng.random() < 0.3 else None
     else:
-        spec = worlds.gen_find_world(rng, max_atoms=36, min_copies=1, families=[f for f in geom.PATTERN_FAMILIES if f != "single"])
+        moved = rng.random() < 0.3
+        spec = worlds.gen_find_world(rng, max_atoms=36, min_copies=1, families=[f for f in geom.PATTERN_FAMILIES if f != "single"],
+                                     **({"atols": [0.005, 0.01, 0.02]} if moved else {}))
         replcheck.add_metadata(rng, spec)
         els = spec["pattern"]["elements"]
         P = np.array(spec["pattern"]["positions"], float).reshape(-1, 3)
-        x = rng.choice(sorted(set(els)))
-        rep = replcheck.gen_replacement(rng, els, P, mode=rng.choice(["smaller", "equal_subst", "larger", "disjoint", "empty"]))
-        keep = [i for i, e in enumerate(rep["elements"]) if e != x]
-        for key in ("elements", "positions", "charges", "groups", "extra_atom_fields"):
-            if rep.get(key) is not None:
-                rep[key] = [rep[key][i] for i in keep]
+        rep = None
+        if moved:
+            # B = A with one atom moved by less than 0.1 A but far more than the tolerance (a relaxed geometry): the sites then
+            # have B's shape, which is certified NOT to be an occurrence of A under any numbering (distances from the moved atom)
+            j = rng.randrange(len(els))
+            u = np.array([rng.gauss(0, 1) for _ in range(3)])
+            if len(els) > 1 and rng.random() < 0.5:
+                u = P[j] - P[(j + 1) % len(els)]
+            PB = P.copy()
+            PB[j] = P[j] + u / np.linalg.norm(u) * rng.uniform(max(0.03, 5 * spec["atol"]), 0.09)
+            dB = np.sort(np.linalg.norm(PB - PB[j], axis=1))
+            t = 2 * math.sqrt(3.0) * spec["atol"] * 1.05 + 1e-6
+            if all(np.abs(dB - np.sort(np.linalg.norm(P - P[i], axis=1))).max() > t for i in range(len(els))):
+                rep = {"elements": list(els), "positions": PB.tolist(), "charges": None, "groups": None, "mode": "relaxed"}
+                spec["gone_element"] = "the original place of pattern atom %d" % j
+        if rep is None:
+            x = rng.choice(sorted(set(els)))
+            rep = replcheck.gen_replacement(rng, els, P, mode=rng.choice(["smaller", "equal_subst", "larger", "disjoint", "empty"]))
+            keep = [i for i, e in enumerate(rep["elements"]) if e != x]
+            for key in ("elements", "positions", "charges", "groups", "extra_atom_fields"):
+                if rep.get(key) is not None:
+                    rep[key] = [rep[key][i] for i in keep]
+            spec["gone_element"] = x
         spec["replace"] = rep
-        spec["gone_element"] = x
         spec["fraction"] = 1.0
         spec["replace_all"] = rng.random() < 0.2
     spec["mode"] = mode
@@ -323,6 +341,8 @@ def execute(spec, ctx):
 
     if mode == "gone":
         ctx.count("gone_histories")
+        if spec["replace"].get("mode") == "relaxed":
+            ctx.count("gone_by_moving_one_atom")
         res1, k1 = _call_replace(ctx, structure, search, replace, atol, script, hints, fraction=1.0, replace_all=spec["replace_all"])
         if res1 is None:
             ctx.count("overlap_error_left_to_C07")
